@@ -879,7 +879,7 @@ func r33ColumnOrder(c *core.Ctx) {
 		q := false
 		for _, call := range core.CallsIn(info, f.Decl, "database/sql.DB.Query") {
 			if len(call.Args) >= 1 {
-				if inner, ok := call.Args[0].(*ast.CallExpr); ok && core.IsCallTo(info, inner, "gpkg.Table.selectSQL") {
+				if inner, ok := call.Args[0].(*ast.CallExpr); ok && isCallToAnchor(c, info, inner, "gpkg.Table.selectSQL") {
 					q = true
 				}
 			}
@@ -887,4 +887,29 @@ func r33ColumnOrder(c *core.Ctx) {
 		c.Check(R, "reader-queries-select-sql/"+f.Name, f.Decl.Pos(), q, "rows come from Query(source.Table.selectSQL())", "ReadFeatures does not query with the table's selectSQL(): column order of the values is not the table order")
 	}
 	c.Floor(R, 5)
+}
+
+// isCallToAnchor: the call's callee is the module function known under the given anchor name (whether it is
+// written as a method or as a plain function today).
+func isCallToAnchor(c *core.Ctx, info *types.Info, call *ast.CallExpr, name string) bool {
+	f := c.P.Lookup(name)
+	if f == nil {
+		return false
+	}
+	cal := core.Callee(info, call)
+	return cal != nil && cal.Origin() == f.Obj
+}
+
+// subjectOf: the operand a method-or-function helper works on: the receiver of a method call, else the first
+// argument.
+func subjectOf(info *types.Info, call *ast.CallExpr) ast.Expr {
+	if sel, ok := ast.Unparen(call.Fun).(*ast.SelectorExpr); ok {
+		if s := info.Selections[sel]; s != nil {
+			return sel.X
+		}
+	}
+	if len(call.Args) > 0 {
+		return call.Args[0]
+	}
+	return nil
 }
